@@ -749,6 +749,31 @@ func (e *Exec) exec1(op string, pos []string, kv map[string]string, line string)
 		}
 		w.bindTx(t)
 		return "-"
+	case "atx":
+		// a generated (autogen) transaction carrying only a read / write set, as the timer task produces them
+		t := &TxInfo{From: "-", Autogen: true, KIn: parseKIn(kv["kin"]), KOut: parseKOut(kv["kout"])}
+		idx := w.addTx(t)
+		if idx != atoi(pos[0]) {
+			return "bad-index"
+		}
+		var ins []*protos.TxInputExt
+		var outs []*protos.TxOutputExt
+		for _, ki := range t.KIn {
+			in := &protos.TxInputExt{Bucket: chainlib.KVBucket, Key: []byte(ki.Key)}
+			if ki.VTx >= 0 && ki.VTx < len(w.Txs) && w.Txs[ki.VTx].Tx != nil {
+				in.RefTxid = w.Txs[ki.VTx].Tx.Txid
+				in.RefOffset = int32(ki.VOff)
+			}
+			ins = append(ins, in)
+		}
+		for _, ko := range t.KOut {
+			outs = append(outs, &protos.TxOutputExt{Bucket: chainlib.KVBucket, Key: []byte(ko.Key), Value: []byte(ko.Val)})
+		}
+		tx := &pb.Transaction{Version: 3, Autogen: true, Nonce: fmt.Sprintf("a%d", t.Idx), Timestamp: int64(1000 + t.Idx), TxInputsExt: ins, TxOutputsExt: outs}
+		tx.Txid, _ = makeTxid(tx)
+		t.Tx = tx
+		w.bindTx(t)
+		return "-"
 	case "verify":
 		t := w.Txs[atoi(pos[0])]
 		ok, err := w.Main.S.VerifyTx(t.Tx)
@@ -876,7 +901,10 @@ func (e *Exec) exec1(op string, pos []string, kv map[string]string, line string)
 			}
 			e.failedOps++
 			e.checkState(line)
-			return "fail:" + errEnum(err)
+			if e.out != nil {
+				e.out.Count(op + "-fail:" + errEnum(err))
+			}
+			return "fail"
 		}
 		e.markApplied(b.Pre, b.Idx)
 		e.afterBlockPool(b, op == "playminer")
@@ -1137,6 +1165,11 @@ func (e *Exec) replicaCheck() string {
 	if len(e.implPool()) != 0 {
 		return "skip-pool"
 	}
+	for _, b := range w.chain(tip) {
+		if e.badBlocks[b] {
+			return "skip-bad" // the chain contains a block only its producer applies (fabricated generated tx)
+		}
+	}
 	w.nodeSeq++
 	r, err := chainlib.NewNode(e.scratch, fmt.Sprintf("replica%d", w.nodeSeq), w.Main.Genesis, w.Miners[1])
 	if err != nil {
@@ -1186,6 +1219,10 @@ func (e *Exec) snapCheck() string {
 	}
 	n := w.Main
 	cnt := 0
+	// the property speaks of snapshots at MAIN-CHAIN blocks up to the tip: the state must be on the ledger's main chain
+	if lt := e.ledgerTip(); lt < 0 || !w.isAncestorOrSelf(tip, lt) {
+		return "skip-side-branch"
+	}
 	for _, b := range w.chain(tip) {
 		exp := map[string]string{}
 		s := w.SpecAt(b)
